@@ -3,6 +3,7 @@ import FtdcVerif.Lemmas.EndToEnd
 import FtdcVerif.Lemmas.StreamE2E
 import FtdcVerif.Lemmas.SDynE2E
 import FtdcVerif.Lemmas.FileE2E
+import FtdcVerif.Lemmas.PayloadTie
 /-!
 # C01 — structured round trip is lossless
 
@@ -542,5 +543,21 @@ theorem streaming_file_structured (n : Nat) (h1 : 1 ≤ n) (hn : n < 2 ^ 32) (d0
   apply hck'
   rw [hlog]
   exact List.mem_map.mpr ⟨p, hp, rfl⟩
+
+/-- **the payload with the regenerated Go encoder loop in it decodes to the samples**: reference document, the two
+counts, then the bytes of the values that the translation of `getPayload`'s loops (`Gen.Better.getPayload_region`,
+rewritten from the Go text on every run) hands to `encodeValue` — for every delta table that holds the per-metric
+deltas of the samples. -/
+theorem go_encoder_loop_roundtrip (ref : BDoc) (rows : List Row) (ds : List Int) (md : Int)
+    (hw : WFDoc ref) (hl : (serDoc ref).length < 2 ^ 31) (hts : NoTs ref)
+    (hrows : ∀ r ∈ rows, r.length = (vals ref).length)
+    (hnm : (vals ref).length < 2 ^ 32) (hn : rows.length < 2 ^ 32)
+    (hsz : (vals ref).length * rows.length < 2 ^ 63)
+    (htab : PayloadTie.TableHolds ds md (vals ref) rows) (hr : ∀ x ∈ ds, -2 ^ 63 ≤ x ∧ x < 2 ^ 63) :
+    ∃ c, decodePayload (serDoc ref ++ le32 (vals ref).length ++ le32 rows.length
+          ++ PayloadTie.emitBytes (Gen.Better.getPayload_region ds md (rows.length : Int) ((vals ref).length : Int) []))
+        = .ok c ∧ c.ref = ref ∧ c.rows = vals ref :: rows := by
+  rw [← PayloadTie.payloadOf_is_go_loop ref (vals ref) rows ds md htab hr hsz]
+  exact decode_payload ref rows hw hl hts hrows hnm hn (by omega)
 
 end Ftdc.Props.C01
